@@ -632,6 +632,13 @@ def c10():
                 if kind == "zero" or (not q and kind == "eof"):
                     reads.append({"mode": "fault", "allat": True, "kind": kind, "sticky": True})
             c["reads"] = reads
+    # pages of more than 64 KiB (readers that fetch large pages or chunks differently from small ones), every fault kind at every call
+    for p in ok:
+        if p.key in ("fixed:AllTypes", "fixed:Document", "fixed:Person"):
+            for c in huge_page_cases(ck, p, CODECS if not q else [CODECS[(ck.seed + len(p.key)) % 3]]):
+                c["reads"] = [{"mode": "plain"}] + [{"mode": "fault", "allat": True, "kind": kind} for kind in ("zero", "half", "eof", "ueof")]
+                p.cases.append(c)
+                ck.add("files_with_pages_over_64KiB")
     run_programs(ok, "c10", timeout=2400)
     n = d = 0
     for p in ok:
